@@ -1,14 +1,16 @@
 """C03 — column data is the canonical Dremel striping of the records."""
 from vcommon import *
-import progs, c01, random
+import progs, c01, c02, random
 
-TEMPLATES = c01.TEMPLATES
+TEMPLATES = c02.TEMPLATES
+NATIVE = c02.NATIVE
 
 
 def main(tier, replay):
     c = Check('C03', 'model_checking', tier)
     quick = tier == 'quick'
     P = c01.core_programs()
+    P.update(progs.nested_specials())
     # the repository's grammar: small shapes with groups (striping is about nesting)
     shapes = [(s, n) for s, n in progs.grammar_shapes(3 if quick else 4) if any(m[0] == 'G' for m in s)]
     # quick: every shape with <= 3 nodes that has a group (117); thorough: <= 4 nodes
@@ -23,7 +25,7 @@ def main(tier, replay):
     allp.update(G)
     mod, infos = setup_programs(c, allp, TEMPLATES)
     if replay:
-        replay_main(c, replay, infos)
+        replay_main(c, replay, infos, NATIVE)
     for n in P:
         if not infos[n]['ok']:
             c.inconclusive.append('core program %s: %s' % (n, infos[n]['msg']))
@@ -48,6 +50,9 @@ def main(tier, replay):
             J('core-%s-1f1n' % n, n, [1, 1, 1, ml, 0, 0, 1, 0])
             if not quick and n == 'document':
                 J('core-%s-1n-l3' % n, n, [1, 0, 0, 3, 0, 0, 1, 0])
+                jobs[-1]['opt']['max_paths'] = 800000   # 474k record structures
+        elif n in progs.nested_specials():
+            J('core-%s-1n1f' % n, n, [1, 1, 0, 2, 1, 0, 1, 0])
         else:
             J('core-%s-2n' % n, n, [2, 0, 0, ML, 1, 0, 1, 0])
     J('sens-def', 'p4', [1, 0, 0, 1, 1, 0, 1, 1], expect='striping')
@@ -61,12 +66,26 @@ def main(tier, replay):
         J('gram-%s-1n1f' % n, n, [1, 1, 0, 2, 1, 0, 1, 0])
         if not quick and gnodes[n] <= 3:
             J('gram-%s-2n' % n, n, [2, 0, 0, 2, 1, 0, 1, 0])
+    # ---- the same striping observed where the property says: in the FILE.  The level streams and value sections of
+    # every page are decoded by the specification's rules alone (bit width = bits needed for the schema's maximum
+    # level, hybrid RLE/bit-packed runs, PLAIN values) and compared with the reference striping of the batch.
+    nested = [n for n in P if n in ('p4', 'person', 'document') or n in progs.nested_specials()]
+    for n in nested:
+        wide = n in ('person', 'document')
+        jobs.append({'name': 'file-%s' % n, 'pkg': 'scratch/' + n, 'func': 'HarnessFile', 'args': [0 if wide else 1, 2 if wide else 1, -1, 2, 1, 0, 0, 1000, 0],
+                     'opt': {'stub': c02.nostats(n)}})
+    for n in G:
+        if infos[n]['ok'] and (not quick or gnodes[n] <= 3):
+            jobs.append({'name': 'gram-%s-file' % n, 'pkg': 'scratch/' + n, 'func': 'HarnessFile', 'args': [1, 1, -1, 2, 1, 0, 0, 1000, 0],
+                         'opt': {'stub': c02.nostats(n)}})
+    jobs.append({'name': 'sens-file', 'pkg': 'scratch/p4', 'func': 'HarnessFile', 'args': [0, 2, 1, 1, 1, 0, 0, 1000, 1], 'opt': {'stub': c02.nostats('p4')},
+                 'expect': 'values stored in the pages'})
     first = len(c.jobs)
-    out = run_program_jobs_batched(c, mod, infos, jobs, batch=200)
+    out = run_program_jobs_batched(c, mod, infos, jobs, batch=200, native_templates=NATIVE)
     # engine vs native build on concrete pseudo-random records (observations: definition and repetition levels of every column)
     for n in ('p4', 'document', 'person', 'deep_rep' if 'deep_rep' in infos else 'p1'):
         if n in infos and infos[n]['ok']:
-            cx = dict(scratch_ctx(infos[n]), dir=mod, overlay={})
+            cx = dict(scratch_ctx(infos[n], NATIVE), dir=mod, overlay={})
             differential(c, {'name': 'shred-%s' % n, 'pkg': 'scratch/' + n, 'func': 'HarnessShred', 'args': [2, 1, 0, 3, 2, 1, 3, 0], 'opt': {'stub': stubs(n)}}, cx, runs=60 if quick else 300)
     # grammar programs that do not compile are C05's business: not a C03 verdict
     bad_compile = sorted({k.split('/')[-1] for k in (out.get('load_errors') or {}) if k.startswith('scratch/g')})
@@ -97,8 +116,9 @@ def main(tier, replay):
     c.extra['grammar_programs_not_generated_or_not_compiling'] = {'count': gen_bad + len(bad_compile), 'note': 'counted by C05, skipped here'}
     c.bounds = {'records': '2 structurally free records per program (person/document: 1 free + 1 fixed, both orders)', 'lists': '<= %d' % ML,
                 'programs': 'core catalogue (%d) + all %d grammar shapes with groups (<= %d nodes, depth <= 3)' % (len(P), len(G), 3 if quick else 4),
-                'outside': 'lists longer than %d; nesting deeper than the catalogue; the page-level order of levels and values is checked by C02' % ML}
+                'file level': 'every nested program and grammar shape also written to a file (1 free + 1 fixed record, lists <= 2, one page per chunk, uncompressed) whose pages are decoded by the specification alone (level bit width from the schema maxima) and compared with the reference striping',
+                'outside': 'lists longer than %d; nesting deeper than the catalogue' % ML}
     c.assumptions = ['reference striper written from the Dremel paper (fig. 4) over a value tree built by catalogue-generated conversion code; expected schema comes from the catalogue description, not from parquetgen',
                      'string statistics accumulators stubbed (irrelevant to striping, decided by C12)']
     c.finish('one job per program; paths enumerate every combination of nil/non-nil optionals and list lengths at every nesting level of the free records; a path is non-trivial when at least one obligation went to the solver (most striping obligations are decided syntactically because the generated code moves values without transforming them)',
-             'generated read<Col> functions via Field.Add, NewOptionalField (max levels) executed from SSA; Defs/Reps/vals of every generated field compared with the reference striping, def <= maxDef, rep <= maxRep, column order/names against the catalogue schema')
+             'generated read<Col> functions via Field.Add, NewOptionalField (max levels), OptionalField.DoWrite + rle.Write/Bytes (level serialisation) executed from SSA; Defs/Reps/vals of every generated field compared with the reference striping, def <= maxDef, rep <= maxRep, column order/names against the catalogue schema')
